@@ -753,7 +753,8 @@ func (s *TreeShapeListener) EnterTable_def(ctx *parser.Table_defContext) {
 			}
 		}
 	}
-	if ctx.WHATEVER() != nil {
+	if ctx.WHATEVER() != nil && len(attributesForType(type1)) == 0 {
+		// a '...' placeholder leaves the type without a body, unless another declaration already gave it fields
 		type1.Type = nil
 	}
 }
@@ -771,6 +772,15 @@ func (s *TreeShapeListener) EnterTable(ctx *parser.TableContext) {
 		case *sysl.Type_Tuple_:
 			s.typemap = e.Tuple.AttrDefs
 		default:
+			// an earlier '!type X: ...' placeholder has no body yet: this declaration supplies it
+			if existing.Type == nil {
+				switch {
+				case ctx.TABLE() != nil:
+					existing.Type = &sysl.Type_Relation_{Relation: &sysl.Type_Relation{AttrDefs: s.typemap}}
+				case ctx.TYPE() != nil:
+					existing.Type = &sysl.Type_Tuple_{Tuple: &sysl.Type_Tuple{AttrDefs: s.typemap}}
+				}
+			}
 		}
 	}
 	if ctx.TABLE() != nil {
